@@ -12,6 +12,12 @@ NOTE_COMMON = ("Trusted base: go/packages + go/types type-check of /repo's worki
 
 # id -> (technique, level text, level note, design ref)
 CLAIMS = {
+    "C06": (
+        "exhaustive enumeration and discharge of every potentially panicking construct in the call closure of ProcessMessage over all registered handlers: parameter-count bounds propagated from the registry and direct calls (fixed point) and refined by dominating length tests; closed idiom list for index/slice expressions; reaching-definition nil analysis of every dereference of session/channel/member/message/prefix/URL pointers with path facts and the named state invariants; dropped-error, nil-map, termination-call, assertion/division, recursion and lock re-entry checks",
+        "Panic-freedom of the state-machine step by obligation discharge, for all reachable states and all next lines at once: ~400 obligations (every msg.Params access, every index/slice expression, every pointer dereference, every lock acquisition inside the step, every error-returning call) are each discharged by a local guard, a registry bound, or one of the state invariants I0-I4 (whose preservation is C14's pairing rules, run as part of this check). "
+        "Assumes the named invariants, the frozen exceptions listed in evidence, that third-party libraries do not panic on the argument shapes used, and — for authenticated services links only — protocol-conforming lines (parameter counts and prefixes in code reachable only through server_ keys are recorded as assumed).",
+        NOTE_COMMON,
+        "DESIGN.md section 3, C06"),
     "C20": (
         "static lockset / ownership analysis: frozen lock table (field -> mutex), enumeration of every read and write of a guarded field in main/api/ircserver/outputstream/raftstore, forward must-lockset data-flow per function with entry locksets propagated over the call graph (intersection over call sites; registry handlers inherit the dispatcher's lockset), mode check (write needs W), construction/immutability exemptions, call-site obligations for methods that do not lock, escape check for copies carrying maps",
         "Decides, at type level, that every pair of accesses to IRC server, output stream, store and api.HTTP state that two roles can perform concurrently shares a lock in a sufficient mode: all ~775 guarded field accesses are covered on every path (the race detector only samples schedules). "
